@@ -143,6 +143,28 @@ def run_case(case, work, rec):
     if blanks:
         rec.count("names_with_blanks")
 
+    # ---- what an earlier session left beside the plotfile: the pickle marinate wrote when the directory held OTHER
+    # data (the output was regenerated in place / restored with its old timestamps): newer than the Header
+    if m.ndims == 3 and case["sel_seed"] % 2 == 0 and not case.get("reach") and not case.get("scale"):
+        try:
+            other = gen.gen_model(**dict(case["gen"], data_seed=case["gen"]["seed"] + 991))
+            sib = os.path.join(work, "earlier", os.path.basename(path))
+            os.makedirs(os.path.dirname(sib), exist_ok=True)
+            gen.write_plotfile(other, sib, **case.get("fmt", {}))
+            pools.CTL.reset(mode="inproc", seed=1)
+            run_tool("amr_kitchen.marinate", ["marinate", sib], work, False)
+            if os.path.isfile(sib + ".pkl"):
+                os.replace(sib + ".pkl", path + ".pkl")
+                old = os.path.getmtime(path + ".pkl") - 3600.0
+                for root, dirs, files in os.walk(os.path.realpath(path)):
+                    for fn in files:
+                        os.utime(os.path.join(root, fn), (old, old))
+                rec.count("stale_marinade_beside_the_input")
+            import shutil
+            shutil.rmtree(os.path.join(work, "earlier"), ignore_errors=True)
+        except Exception:
+            pass
+
     # ---- minuterie
     out, err = run_tool("amr_kitchen.minuterie", ["minuterie", path], work, sub)
     mm = re.search(r"Plotfile time = (\S+)", out)
